@@ -44,6 +44,9 @@ def scen_spec(name):
             a["velocity"] = a["velocity"] + k
     # keep the lanelet goal consistent with the shifted lanelet
     sp["pps"][0]["goal"]["states"][1]["attrs"]["position"] = speclib.lanelet_goal_shape(sp, [2])
+    # a signal series on the obstacle with the set-based prediction
+    speclib.find(sp, "obstacles", 32)["signal_series"] = [{"time_step": 1, "horn": False, "indicator_left": True, "indicator_right": False, "braking_lights": True,
+                                                           "hazard_warning_lights": False, "flashing_blue_lights": False}]
     if name == "s2":
         # s2 leaves optional data at the constructor defaults where s1 sets it: a lanelet without type, users and markings, initial states without
         # acceleration (a writer that completes its input in place would leak into later files)
@@ -54,6 +57,10 @@ def scen_spec(name):
             if "initial_state" in o:
                 o["initial_state"]["attrs"].pop("acceleration", None)
         sp["pps"][0]["initial_state"]["attrs"].pop("acceleration", None)
+        # goal lanelets on the first goal state only, the later goal state is a plain shape
+        sp["pps"][0]["goal"]["lanelets"] = {0: [1]}
+        sp["pps"][0]["goal"]["states"][0]["attrs"]["position"] = speclib.lanelet_goal_shape(sp, [1])
+        sp["pps"][0]["goal"]["states"][1]["attrs"]["position"] = ["circle", 3.0, 30.0, 2.0]
         sp["obstacles"] = [o for o in sp["obstacles"] if o["id"] != 33]
         sp["sid"] = {"country": "DEU", "map": "Other", "map_id": 2, "conf": 1, "beh": "T", "pred": 1}
         sp["pps"][0]["initial_state"]["attrs"]["velocity"] = 7.0123456789012
@@ -127,6 +134,10 @@ def make_enabled(tier, max_writers):
                 ops.append(["write_skip", i]); ops.append(["write_always", i])
             # SKIP onto an existing but EMPTY file (a reserved name): it exists, so it must be left untouched, by both entry points
             ops.append(["write_skip_empty", i, "write_to_file"]); ops.append(["write_skip_empty", i, "write_scenario_to_file"])
+            # SKIP onto an existing file whose name has no suffix, while a file <name>.<format suffix> exists as well
+            ops.append(["write_skip_nosuffix", i, "write_to_file"]); ops.append(["write_skip_nosuffix", i, "write_scenario_to_file"])
+            # ... and the same call when only <name>.<suffix> exists: the given path is new, so it is written - and nothing else is touched
+            ops.append(["write_nosuffix_beside", i, "write_to_file"]); ops.append(["write_nosuffix_beside", i, "write_scenario_to_file"])
         return ops
     return enabled
 
@@ -137,6 +148,10 @@ def step(world, model, op):
     m = {"writers": [list(w) for w in model["writers"]], "nfiles": model["nfiles"], "file_fmts": list(model.get("file_fmts", []))}
     k = op[0]
     obs = {"kind": k}
+
+    def listing():
+        return {n: hashlib.sha256(open(os.path.join(world.dir, n), "rb").read()).hexdigest() for n in sorted(os.listdir(world.dir))}
+    dir_before = listing()
     try:
         if k == "new":
             sc, pps = world.scenario(op[3])
@@ -156,6 +171,14 @@ def step(world, model, op):
                 m["nfiles"] += 1; m["file_fmts"].append(fmt)
                 m["writers"][i][3 if k == "write" else 4] += 1
                 obs.update(path=fn, fmt=fmt, prec=prec, scen=scen, method=method)
+            elif k in ("write_skip_nosuffix", "write_nosuffix_beside"):
+                base = os.path.join(world.dir, f"bare{len(os.listdir(world.dir))}")
+                for name in ((base,) if k == "write_skip_nosuffix" else ()) + (base + ".xml", base + ".pb"):
+                    with open(name, "wb") as f:
+                        f.write(b"existing content of " + os.path.basename(name).encode())
+                fn = base
+                getattr(w, op[2])(fn, OverwriteExistingFile.SKIP)
+                obs.update(path=fn, fmt=fmt, prec=prec, scen=scen, method=op[2], before=hashlib.sha256(open(fn, "rb").read()).hexdigest() if os.path.exists(fn) else None)
             elif k == "write_skip_empty":
                 fn = os.path.join(world.dir, f"empty{len(os.listdir(world.dir))}.{fmt}")
                 open(fn, "wb").close()
@@ -172,6 +195,18 @@ def step(world, model, op):
     except Exception as e:
         obs["status"] = "raises:" + type(e).__name__
         obs["error"] = str(e)[:200]
+    # which files of the directory appeared or changed during this operation (files the harness itself pre-created count as "before")
+    after = listing()
+    pre = dict(dir_before)
+    if k in ("write_skip_empty", "write_skip_nosuffix", "write_nosuffix_beside"):
+        pre = None      # decided below from the contents the harness wrote
+    obs["dir_changed"] = sorted(n for n in after if pre is not None and pre.get(n) != after[n])
+    if k == "write_skip_empty":
+        obs["dir_changed"] = sorted(n for n in after if n not in dir_before and after[n] != hashlib.sha256(b"").hexdigest()) + \
+            sorted(n for n in dir_before if dir_before[n] != after.get(n))
+    if k in ("write_skip_nosuffix", "write_nosuffix_beside"):
+        obs["dir_changed"] = sorted(n for n in after if n not in dir_before and after[n] != hashlib.sha256(b"existing content of " + n.encode()).hexdigest()) + \
+            sorted(n for n in dir_before if dir_before[n] != after.get(n))
     return (obs["status"], obs), m
 
 
@@ -202,10 +237,23 @@ def check(world, model, model2, op, obs, pre):
         out.append((f"C15|{op[0]}|{status}", f"{op}: {o.get('error')}"))
         return out
     if op[0] == "new":
+        if o.get("dir_changed"):
+            out.append((f"C15|new-writer|touches-files", f"{op}: {o['dir_changed']}"))
         return out
     fmt = o["fmt"]
+    # a writer touches the path it was given and nothing else; with SKIP on an existing file it touches nothing
+    allowed = set() if op[0] in ("write_skip", "write_skip_empty", "write_skip_nosuffix") else {os.path.basename(o["path"])}
+    other = [n for n in o.get("dir_changed", []) if n not in allowed]
+    if other:
+        out.append((f"C15|{o['method']}[{'SKIP' if not allowed else 'ALWAYS'}]|{fmt}|other-file-touched" + (":suffix-less-name" if "nosuffix" in op[0] else ""),
+                    f"{op}: files changed or created besides the given path: {other}"))
+        return out
     data = open(o["path"], "rb").read()
-    if op[0] in ("write_skip", "write_skip_empty"):
+    if op[0] == "write_nosuffix_beside":
+        if not os.path.exists(o["path"]):
+            out.append((f"C15|{o['method']}|{fmt}|suffix-less-name|given-path-not-written", f"{op}: nothing was written to the given path"))
+            return out
+    if op[0] in ("write_skip", "write_skip_empty", "write_skip_nosuffix"):
         if hashlib.sha256(data).hexdigest() != o["before"]:
             out.append((f"C15|{o['method']}[SKIP]|{fmt}|skip-modified{':empty-file' if op[0] == 'write_skip_empty' else ''}",
                         f"{op}: existing file changed although overwrite mode is SKIP"))
